@@ -24,6 +24,8 @@ V = F.VROOT
 G_A = 'start: x+\nx: A [B] C? "!" | "(" x ")" -> grp\nother: B+\nA: "a"\nB: "b"\nC: /c+/\n%ignore " "\n'
 G_B = 'start: x+\nx: A [B] C "!" | "(" x ")" -> grp\nother: B+\nA: "a"\nB: "b"\nC: /c+/\n%ignore " "\n'
 G_I = '%import .sub (A, B)\nstart: x+\nx: A [B] "!" | "(" x ")" -> grp\nother: B+\n%ignore " "\n'
+G_IL = '%import sub (A, B)\nstart: x+\nx: A [B] "!" | "(" x ")" -> grp\nother: B+\n%ignore " "\n'      # library-style import: searched in import_paths
+G_K = 'start: (KW | ID | NUM)+\nother: ID+\nKW.2: "ab"\nID: /[a-b]+/\nNUM.-1: /[ab]/\n%ignore " "\n%ignore "!"\n%ignore "("\n%ignore ")"\n%ignore "c"\n'   # colliding terminals: priorities decide
 SUB = ['A: "a"\nB: "b"\n', 'A: "a" | "A"\nB: "bb"\n', 'A: /a+/\nB: "b"\n']
 
 
@@ -51,6 +53,13 @@ POOL = {
     'O2': dict(g=G_I, o={}, open=V + 'p2/g.lark', imports=[V + 'p2/sub.lark']),
     'S1': dict(g=G_I, o={}, cwd=V + 'p1', imports=[V + 'p1/sub.lark']),              # grammar given as a string in a process whose cwd is p1
     'S2': dict(g=G_I, o={}, cwd=V + 'p2', imports=[V + 'p2/sub.lark']),
+    'P1': dict(g=G_IL, o={'import_paths': [V + 'p1']}, imports=[V + 'p1/sub.lark']),          # same text, the import_paths option differs
+    'P2': dict(g=G_IL, o={'import_paths': [V + 'p2']}, imports=[V + 'p2/sub.lark']),
+    'P21': dict(g=G_IL, o={'import_paths': [V + 'p2', V + 'p1']}, imports=[V + 'p2/sub.lark']),
+    'A-regex': dict(g=G_A, o={'regex': True}),
+    'K': dict(g=G_K, o={}),
+    'K-inv': dict(g=G_K, o={'priority': 'invert'}),
+    'K-basic': dict(g=G_K, o={'lexer': 'basic'}),
     'BIG': dict(g=_big(), o={}),
 }
 QUICK_KEYS = [k for k in POOL if k != 'BIG']
@@ -143,7 +152,7 @@ class C12(Check):
         nk = rng.choice([1, 2, 2, 3, 4])
         hk = [rng.choice(keys) for _ in range(nk)]
         if rng.random() < 0.3:
-            hk += rng.choice([['I1', 'I2'], ['O1', 'O2'], ['S1', 'S2'], ['O1', 'I1', 'S1']])
+            hk += rng.choice([['I1', 'I2'], ['O1', 'O2'], ['S1', 'S2'], ['O1', 'I1', 'S1'], ['P1', 'P2'], ['P2', 'P21', 'P1'], ['K', 'K-inv', 'K-basic']])
         paths = ['c1'] if rng.random() < 0.7 else ['c1', 'c2']
         if rng.random() < 0.15:
             paths.append(True)
